@@ -700,6 +700,18 @@ class RequestHandler:
                 raise http.cookies.CookieError(
                     f"Invalid cookie attribute {attr_name}={attr_value!r} for cookie {name!r}"
                 )
+        for attr_name, attr_value in kwargs.items():
+            # The deprecated keyword arguments are copied to the Morsel as they are, so the
+            # same rule applies to them. Spaces are allowed here (an "expires" string
+            # contains them); "comment" is quoted by the cookie library when it is emitted.
+            if (
+                isinstance(attr_value, str)
+                and attr_name.lower() != "comment"
+                and re.search(r"[\x00-\x1f\x3b\x7f]", attr_value)
+            ):
+                raise http.cookies.CookieError(
+                    f"Invalid cookie attribute {attr_name}={attr_value!r} for cookie {name!r}"
+                )
         if not hasattr(self, "_new_cookie"):
             self._new_cookie: http.cookies.SimpleCookie = http.cookies.SimpleCookie()
         if name in self._new_cookie:
